@@ -1,0 +1,66 @@
+//go:build verif
+
+// Package verifhook exposes observation points for the verification harness.
+// It is compiled in only with the build tag "verif"; without the tag every
+// function is an empty stub (hook_off.go) and the call sites cost nothing.
+package verifhook
+
+// Sinks are nil unless a harness installs them. They are called synchronously
+// from the goroutine that runs the parser / validator.
+var (
+	// OnLex: the parser obtained a token from the lexer (kind, start offset in runes).
+	OnLex func(kind int, start int)
+	// OnNext: parser.next() was entered and has incremented its token counter to count.
+	OnNext func(count int)
+	// OnLimitHit: parser.next() refused to go on because count exceeds the limit.
+	OnLimitHit func(count int)
+	// OnStep: one recursion step of the validator at the given site.
+	OnStep func(site int)
+	// OnGate: called on entry of Walker.walkSelection; may block (schedule replay).
+	OnGate func()
+)
+
+// Sites of OnStep.
+const (
+	SiteWalkSelection = iota
+	SiteIntrospectionDepthSpread
+	SiteOverlapFindConflict
+	SiteOverlapFieldsAndFragment
+	SiteOverlapBetweenFragments
+	SiteNoFragmentCycles
+	SiteSubscriptionTopFields
+	NumSites
+)
+
+func Lex(kind int, start int) {
+	if OnLex != nil {
+		OnLex(kind, start)
+	}
+}
+
+func Next(count int) {
+	if OnNext != nil {
+		OnNext(count)
+	}
+}
+
+func LimitHit(count int) {
+	if OnLimitHit != nil {
+		OnLimitHit(count)
+	}
+}
+
+func Step(site int) {
+	if OnStep != nil {
+		OnStep(site)
+	}
+}
+
+func Gate() {
+	if OnGate != nil {
+		OnGate()
+	}
+}
+
+// Enabled reports whether the hooks are compiled in.
+const Enabled = true
